@@ -31,7 +31,7 @@ SHARD_TIMEOUT = {'quick': 900, 'thorough': 7200}
 
 def cases(tier: str, seed: int) -> list[dict]:
     out = []
-    n_end, n_req, n_cb = (1500, 1000, 200) if tier == 'quick' else (15000, 12000, 2500)
+    n_end, n_req, n_cb = (1500, 1000, 200) if tier == 'quick' else (150000, 80000, 15000)
     for _ in range(n_end):
         out.append({'kind': 'endings', 'seed': seed, 'n': len(out)})
     for _ in range(n_req):
